@@ -114,11 +114,11 @@ VIA = ("c10", "c08", "c09", "c11")
 
 
 def run_case(seed, i, tier):
-    if i % 6 == 5:
+    if i % 4 == 3:
         # "for every kind of source": event logs, accounting records, journals and year-less text logs (whose dates are
         # inferred before the window applies) are windowed by their own readers / passes;
         # their checks (independent evtx dump, generated records, journalctl) are run here too and reported under C03
-        name = VIA[(i // 6) % len(VIA)]
+        name = VIA[(i // 4) % len(VIA)]
         mod = __import__(name)
         mod.FORCE_WINDOW = True
         try:
